@@ -1,12 +1,14 @@
 """C10: every program ends in a value or an error, never a crash or a hang."""
 import random
+import re
 from common import *
 import expr as X
 import pool
 import evalcheck
+import c10seq
 
 PROP = "C10"
-PROP_FILES = ["Properties/C10.v"]
+PROP_FILES = ["Properties/C10.v", "Check/C10Check.v"]
 N = X.num
 
 BIN = ["|", "&", "&~", "~~", "with", "without", "++", "+", "-", "*", "/", "%", "-%", "//", "^", "+>", "\\", "&&", "||",
@@ -178,6 +180,14 @@ def signature(c, o):
         # panic on a dict that is single-valued (again) is a different defect
         multi = c["stream"].startswith("witness:") or any(m in c["src"] for m in MULTI_VALUED)
         return "panic:rel:(*DictEnumerator).Current" if multi else "panic:rel:(*DictEnumerator).Current:single-valued-dict"
+    if st == "panic" and o.get("site") == "rel.String:Without" and "index out of range" in (o.get("msg") or ""):
+        # the open finding is about character tuples with a negative rune (the hole marker taken for a member)
+        neg = c["stream"].startswith("witness:") or re.search(r"@char:\s*\(?-", c["src"])
+        return "panic:rel.String:Without:negative-char" if neg else "panic:rel.String:Without"
+    if st == "panic" and o.get("site") in ("rel:asArray", "rel:asString", "rel:asBytes") and "index out of range" in (o.get("msg") or ""):
+        # the open finding is about offsets that move the index range across the int64 limit
+        wraps = c["stream"].startswith("witness:") or re.search(r"\d{19}", c["src"])
+        return "panic:rel:as-sequence:index-range-wraps" if wraps else "panic:" + o.get("site")
     if st == "panic":
         if "makeslice" in (o.get("msg") or ""):
             return "panic:makeslice"      # an allocation sized by an index span, wherever it is asked for
@@ -197,8 +207,10 @@ def main(tier, seed, replay=None):
     run = Run(PROP, tier, seed)
     vh, proof = prepare(PROP_FILES, thorough=(tier == "thorough"))
     rng = random.Random(seed)
-    if replay:
-        rp = json.load(open(replay))
+    rp = json.load(open(replay)) if replay else None
+    if rp and "seq" in rp["case"]:
+        cases = []
+    elif replay:
         cases = [{"id": 0, "stream": rp["case"].get("stream", "illtyped"), "src": rp["case"]["src"]}]
     else:
         cases = gen_cases(rng, tier)
@@ -227,5 +239,8 @@ def main(tier, seed, replay=None):
                     "rule": "three streams through syntax.EvaluateExpr under recover() and a wall-clock watchdog (a wedged process is killed and restarted): (1) well-formed but ill-typed programs: every binary, comparison, unary and postfix operator, call, ?:, dot, nest, let/cond patterns and standard-library functions over operands of every kind and representation incl. functions, natives, @neg wrappers, huge/inf/nan numbers; (1b) well-typed operations at the edges of a representation (with/without/set operators/membership/calls at indices just outside, at and just inside both ends of strings, byte arrays, arrays and dicts with and without offsets and holes, huge and fractional indices, out-of-range characters and bytes) and callbacks that fail part-way through a collection (where, =>, >>, orderby, rank, :>, >>> over relations, sets, arrays, dicts and strings of 3-4 members); (1c) an enumerated product of 16 values that have just changed representation (multi-valued dict back to single-valued, sparse array back to dense, filled string hole, removed last item, ...) x 22 consumers (enumeration, ordering, merge, //tuple, join, count, hashing, equality, >>, where, ++, call, set operators, rank, patterns, JSON); (1d) 39 literal shapes the compiler must reject politely (relation literals with a narrow or wide row in any position, repeated headings and keys, odd byte-array items, string templates with odd format controls, odd offsets and patterns) and 32 library calls (//re, //str, //seq, //encoding, //bits, //fmt, //eval, //archive, //unicode) on non-ASCII, empty, offset and sparse strings; (2) malformed source: token soup over the grammar's terminals, truncated/garbled well-formed literals, raw bytes; (3) the committed witness of every open finding; a failure signature is the panic site (package:function of the first arr-ai/arrai frame), 'crash' or 'hang'; distinct non-trivial = distinct sources ending in a value or an ordinary error",
                     "samples": [cases[i]["src"][:120] for i in range(0, len(cases), step)][:8],
                     "status_histogram": hist, "stream_histogram": streams, "failure_signatures": sigs, "exhaustive": False})
+    # the sequence stream: methods of the slice+offset+holes representations against the crash-aware model
+    if not rp or "seq" in rp["case"]:
+        run.cov.update(c10seq.run_stream(run, vh, random.Random(seed * 7919 + 10), tier, replay_case=(rp["case"] if rp else None)))
     run.assumptions = ["the host-level recover of CLI/shell/server is not exercised; the check calls syntax.EvaluateExpr directly"]
     return run.finish(proof)
